@@ -266,9 +266,9 @@ func gossipScenario(w *tracelog.Writer, t int, seed int64, done chan enode.ID) e
 			}
 		} else {
 			ev["via"] = "pong"
-			if !inTable(p.node.ID()) {
-				continue // B only pings nodes it knows
-			}
+			// also nodes that are not in the table yet (portal_*Ping to an arbitrary record): the pong adds the node, and the
+			// radius it reports counts like any other ("intable" is read after the delivery)
+			ev["fresh"] = !inTable(p.node.ID())
 			pmu.Lock()
 			p.pong.typ, p.pong.payload = typ, payload
 			pmu.Unlock()
